@@ -1245,7 +1245,7 @@ def check(ck):
                     fresh = isinstance(v, (ast.Dict, ast.List, ast.DictComp, ast.ListComp)) or \
                         (isinstance(v, ast.Call) and A.call_attr(v) in ("dict", "list", "copy", "deepcopy")) or \
                         (isinstance(v, ast.IfExp) and all(isinstance(x, (ast.Dict, ast.List)) or (isinstance(x, ast.Call) and A.call_attr(x) in ("dict", "list", "copy")) for x in (v.body, v.orelse)))
-                    if not fresh and on_paths and isinstance(st_c, ast.Expr) and st_c.value is c:
+                    if not fresh and on_paths and isinstance(st_c, ast.Expr) and st_c.value is c and A.call_attr(c) in PathComposition.MUTATORS:
                         fresh = not any(f_[2] is st_c for st_ in at_clone for f_ in st_.flaws)
                     ck.ob(R3, pa.key(c, "mutates-fresh-copy:" + nm), fresh, "%s is a fresh copy before it is updated" % nm if fresh else
                           "`%s` updates `%s`, which can be the parent reference's own dict (`%s`): deriving a second partial silently changes the key "
